@@ -903,11 +903,31 @@ theorem selOf_of_peers_nil (np : NetPol) (other : KPeer) (r : NPRule) (h : r.pee
     selOf np other r = true := by
   simp [selOf, ruleSelectsPeer, h]
 
+/-- the AllowAll form of the accumulated set survives the loop -/
+theorem allowedConns_go_allowAll (np : NetPol) (other dst : KPeer) (rules : List NPRule)
+    (res c : ConnSet) (h : allowedConns.go np other dst res rules = .ok c)
+    (ha : res.allowAll = true) : c.allowAll = true := by
+  induction rules generalizing res with
+  | nil => rw [allowedConns.go_nil] at h; cases h; exact ha
+  | cons r rest ih =>
+    rw [go_cons] at h
+    cases hs : np.ruleSelectsPeer r.peers other with
+    | error e => rw [hs] at h; cases h
+    | ok b =>
+      rw [hs] at h
+      cases b
+      · exact ih res h ha
+      · cases hrcr : ruleConnections r.ports (some dst) with
+        | error e => simp only [hrcr, bind, Except.bind] at h; cases h
+        | ok rc =>
+          simp only [hrcr, bind, Except.bind, Bool.not_true, Bool.false_eq_true, if_false] at h
+          exact ih _ h (ConnSet.allowAll_union_left _ _ ha)
+
 /-- the loop of `allowedConns` from an accumulated canonical `res`, for an arbitrary peer `other`:
 `D r` / `Nm r` describe the points / names `ruleConnections` yields for rule `r` -/
 theorem allowedConns_go_gen (np : NetPol) (other dst : KPeer)
     (D : NPRule → Proto → Int → Prop) (Nm : NPRule → Proto → String → Prop)
-    (hD : ∀ r pr x, D r pr x → inRange x) (rules : List NPRule)
+    (rules : List NPRule)
     (hsel : ∀ r ∈ rules, ∀ rp ∈ r.peers, rp ≠ .sel none none)
     (hrc : ∀ r ∈ rules, selOf np other r = true → ∀ rc,
       ruleConnections r.ports (some dst) = .ok rc → rc.WFE ∧ (∀ pr x, rc.den pr x ↔ D r pr x) ∧
@@ -979,58 +999,36 @@ theorem allowedConns_go_gen (np : NetPol) (other dst : KPeer)
       | ok rc =>
         obtain ⟨hw, hden, hnm1, hnm2⟩ := hrc r (List.mem_cons_self ..) hS rc hrcr
         have hcan' : (res.union rc).Canonical := ConnSet.canonical_union_wfe hcan hw
-        have hw' : (res.union rc).WF := hcan'.1
         have hden' := fun pr x => ConnSet.den_union_wfe hres hw pr x
-        show (∀ c, (if (res.union rc).allowAll = true then _ else _) = _ → _) ∧
-          (∀ e, (if (res.union rc).allowAll = true then _ else _) = _ → _)
-        cases hall : (res.union rc).allowAll
-        · -- carry on with the union
-          simp only [Bool.false_eq_true, if_false]
-          obtain ⟨ih1, ih2⟩ := ih hsel' hrc' (res.union rc) hcan'
-          constructor
-          · intro c h
-            obtain ⟨hcw, hcden, hn1, hn2⟩ := ih1 c h
-            refine ⟨hcw, fun pr x => ?_, fun pr n hn => ?_, fun pr n hn => ?_⟩
-            · rw [hcden, hden', hden]
-              simp only [List.mem_cons, exists_eq_or_imp, hS, true_and, or_assoc]
-            · rcases hn1 pr n hn with h | ⟨r', hr', h⟩
-              · rcases ConnSet.names_union_sub _ _ _ _ h with h | h
-                · exact Or.inl h
-                · exact Or.inr ⟨r, List.mem_cons_self .., hS, hnm1 pr n h⟩
-              · exact Or.inr ⟨r', List.mem_cons_of_mem _ hr', h⟩
-            · apply hn2
-              rcases hn with h | ⟨r', hr', h1, h2⟩
-              · rcases ConnSet.names_union_sup res rc pr n (Or.inl h) with h | h
-                · exact Or.inl h
-                · rw [hall] at h; cases h
-              · rcases List.mem_cons.mp hr' with rfl | hr'
-                · rcases hnm2 pr n h2 with h | h
-                  · rcases ConnSet.names_union_sup res rc pr n (Or.inr h) with h | h
-                    · exact Or.inl h
-                    · rw [hall] at h; cases h
-                  · rw [ConnSet.allowAll_union_right_wfe h] at hall; cases hall
-                · exact Or.inr ⟨r', hr', h1, h2⟩
-          · intro e h
-            obtain ⟨r', hr', h3⟩ := ih2 e h
-            exact ⟨r', List.mem_cons_of_mem _ hr', h3⟩
-        · -- early exit: the union is All Connections
-          simp only [if_true]
-          constructor
-          · intro c h
-            cases h
-            refine ⟨hcan', fun pr x => ?_, fun pr n hn => ?_, fun pr n _ => Or.inr hall⟩
-            · rw [ConnSet.den_of_allowAll hw' hall]
-              constructor
-              · intro hx
-                rcases (hden' pr x).mp ((ConnSet.den_of_allowAll hw' hall pr x).mpr hx) with h | h
-                · exact Or.inl h
-                · exact Or.inr ⟨r, List.mem_cons_self .., hS, (hden pr x).mp h⟩
-              · rintro (h | ⟨r', _, _, h⟩)
-                · exact hres.den_inRange h
-                · exact hD r' pr x h
-            · rw [ConnSet.eq_all_of_wf hw' hall, ConnSet.names_mk'] at hn
-              exact absurd hn (List.not_mem_nil)
-          · intro e h; cases h
+        show (∀ c, allowedConns.go np other dst (res.union rc) rest = _ → _) ∧
+          (∀ e, allowedConns.go np other dst (res.union rc) rest = _ → _)
+        obtain ⟨ih1, ih2⟩ := ih hsel' hrc' (res.union rc) hcan'
+        constructor
+        · intro c h
+          obtain ⟨hcw, hcden, hn1, hn2⟩ := ih1 c h
+          have hmono := allowedConns_go_allowAll np other dst rest _ c h
+          refine ⟨hcw, fun pr x => ?_, fun pr n hn => ?_, fun pr n hn => ?_⟩
+          · rw [hcden, hden', hden]
+            simp only [List.mem_cons, exists_eq_or_imp, hS, true_and, or_assoc]
+          · rcases hn1 pr n hn with h | ⟨r', hr', h⟩
+            · rcases ConnSet.names_union_sub _ _ _ _ h with h | h
+              · exact Or.inl h
+              · exact Or.inr ⟨r, List.mem_cons_self .., hS, hnm1 pr n h⟩
+            · exact Or.inr ⟨r', List.mem_cons_of_mem _ hr', h⟩
+          · rcases hn with h | ⟨r', hr', h1, h2⟩
+            · rcases ConnSet.names_union_sup res rc pr n (Or.inl h) with h | h
+              · exact hn2 pr n (Or.inl h)
+              · exact Or.inr (hmono h)
+            · rcases List.mem_cons.mp hr' with rfl | hr'
+              · rcases hnm2 pr n h2 with h | h
+                · rcases ConnSet.names_union_sup res rc pr n (Or.inr h) with h | h
+                  · exact hn2 pr n (Or.inl h)
+                  · exact Or.inr (hmono h)
+                · exact Or.inr (hmono (ConnSet.allowAll_union_right_wfe h))
+              · exact hn2 pr n (Or.inr ⟨r', hr', h1, h2⟩)
+        · intro e h
+          obtain ⟨r', hr', h3⟩ := ih2 e h
+          exact ⟨r', List.mem_cons_of_mem _ hr', h3⟩
 
 /-- an invariant of the rule connection sets that unions keep is an invariant of `allowedConns` -/
 theorem allowedConns_go_inv (np : NetPol) (other dst : KPeer) (I : ConnSet → Prop)
@@ -1055,9 +1053,7 @@ theorem allowedConns_go_inv (np : NetPol) (other dst : KPeer) (I : ConnSet → P
         | ok rc =>
           have hI := hU _ _ hres (hrc r (List.mem_cons_self ..) rc hrcr)
           simp only [hrcr, bind, Except.bind, Bool.not_true, Bool.false_eq_true, if_false] at h
-          split at h
-          · cases h; exact hI
-          · exact ih hrc' _ hI h
+          exact ih hrc' _ hI h
 
 end NetPol
 
@@ -1169,7 +1165,7 @@ theorem allowedConns_plain_spec (np : NetPol) (rules : List NPRule) (hv : ∀ r 
     (∀ e, np.allowedConns rules other dst = .error e → e = .namedPortOnIP ∧ dst.isPod = false) := by
   obtain ⟨g1, g2⟩ := allowedConns_go_gen np other dst
     (fun r pr x => portsDen r.ports (dst.toEnd 0) pr x) (fun _ _ _ => False)
-    (fun r pr x h => h.1) rules (fun r hr => (hv r hr).2)
+    rules (fun r hr => (hv r hr).2)
     (fun r hr _ rc hrc => by
       obtain ⟨hw, _, hden⟩ := ruleConnections_dst_ok r.ports dst 0 hd (hv r hr).1 rc hrc
       refine ⟨hw, hden, ?_, fun pr n h => absurd h id⟩
@@ -2037,7 +2033,7 @@ theorem policyConns_repr (np : NetPol) (i : Bool) (hv : ∀ r ∈ Spec.npRules n
         simp only [xDst, Bool.false_eq_true, if_false]
         obtain ⟨g1, g2⟩ := allowedConns_go_gen np (.pod rp nso) (.pod rp nso)
           (fun r pr x => portsNum r.ports pr x) (fun r pr n => portsNamed r.ports pr n)
-          (fun r pr x h => (portsNum_spec h (.ip 0)).1) (Spec.npRules np (dirOf false))
+          (Spec.npRules np (dirOf false))
           (fun r hr => (hv r hr).2)
           (fun r hr _ rc hrc => by
             rw [ruleConnections_repr r.ports rp nso hrp.isRepr hrp.ports,
